@@ -501,7 +501,7 @@ template<typename V>
 FASTOR_INLINE V
 maskload(const typename V::scalar_value_type * FASTOR_RESTRICT a, const int (&maska)[V::Size]) {
     // masked array is reversed like other intrinsics
-    typename V::scalar_value_type val_out[V::Size] = {}; // zero out the rest
+    FASTOR_ARCH_ALIGN typename V::scalar_value_type val_out[V::Size] = {}; // zero out the rest
     for (FASTOR_INDEX i=0; i<V::Size; ++i) {
         if (maska[i] == -1) {
             val_out[V::Size - i - 1] = a[V::Size - i - 1];
